@@ -32,6 +32,9 @@ NAMES = 0.0          # this campaign relies on the names it generates
 FREE_INPUTS = 0.0
 
 
+RARE_CFG = 0.1     # share of cases run under rarely used option values (same results expected)
+
+
 def budget(tier):
     return 1000 if tier == "quick" else 10000
 
